@@ -67,6 +67,7 @@ type c06Sim struct {
 	runaway  bool
 	t        *testing.T
 	manifest map[int]string // optional: unsigned manifest text per uuid (sweep harness)
+	extra    map[int]map[string]interface{} // optional: further attributes per uuid (replication_desired, storage_classes_desired)
 }
 
 func (s *c06Sim) RoundTrip(req *http.Request) (*http.Response, error) {
@@ -224,6 +225,9 @@ func (s *c06Sim) RoundTrip(req *http.Request) (*http.Response, error) {
 		if mt, ok := s.manifest[r.u]; ok {
 			it["unsigned_manifest_text"] = mt
 			it["portable_data_hash"] = fmt.Sprintf("%032x+%d", r.u, len(mt))
+		}
+		for k, v := range s.extra[r.u] {
+			it[k] = v
 		}
 		items = append(items, it)
 	}
